@@ -94,7 +94,27 @@ impl Prop for C12 {
         (tier.pick(6000, 150000), 900)
     }
     fn build(&self, ch: &mut Chooser, cx: &mut CaseCtx) -> Case {
-        match ch.weighted(&[5, 4, 2]) {
+        match ch.weighted(&[5, 4, 2, 1]) {
+            3 => {
+                // one hunk that rewrites a large block: hundreds of lines on both sides without a common line
+                let (n, m) = (ch.range(1, 700), ch.range(1, 700));
+                let ctx = ch.below(4);
+                let mut d = b"--- a/big.txt\n+++ b/big.txt\n".to_vec();
+                d.extend_from_slice(format!("@@ -{},{} +{},{} @@\n", 10, n + 2 * ctx, 10, m + 2 * ctx).as_bytes());
+                for i in 0..ctx {
+                    d.extend_from_slice(format!(" before {}\n", i).as_bytes());
+                }
+                for i in 0..n {
+                    d.extend_from_slice(format!("-old line {}\n", i).as_bytes());
+                }
+                for i in 0..m {
+                    d.extend_from_slice(format!("+new line {}\n", i).as_bytes());
+                }
+                for i in 0..ctx {
+                    d.extend_from_slice(format!(" after {}\n", i).as_bytes());
+                }
+                Case { data: B(d), origin: "large-block-rewrite".into() }
+            }
             0 => {
                 let nasty = cx.feature("KF-K8-names-needing-quotes-written-bare") && ch.chance(1, 4);
                 let o = WsGenOpts { fail_chance: 2, max_patches: 3, max_files: 4, max_lines: 12, nasty_names: nasty, ..Default::default() };
